@@ -15,6 +15,7 @@ import (
 
 	dtpb "github.com/google/fhir/go/proto/google/fhir/proto/r4/core/datatypes_go_proto"
 	epb "github.com/google/fhir/go/proto/google/fhir/proto/r4/core/resources/encounter_go_proto"
+	opb "github.com/google/fhir/go/proto/google/fhir/proto/r4/core/resources/observation_go_proto"
 	"github.com/verily-src/fhirpath-go/fhirpath"
 	"github.com/verily-src/fhirpath-go/fhirpath/compopts"
 	"github.com/verily-src/fhirpath-go/fhirpath/evalopts"
@@ -210,6 +211,17 @@ func runC03(c *Ctx) {
 			Extension: []*dtpb.Extension{{Url: fhir.URI("u"), Value: &dtpb.Extension_ValueX{Choice: &dtpb.Extension_ValueX_Date{Date: &dtpb.Date{ValueUs: 1600000000000000}}}}, {Url: fhir.URI("v"), Value: &dtpb.Extension_ValueX{Choice: &dtpb.Extension_ValueX_Time{Time: &dtpb.Time{ValueUs: 3600000000}}}},
 				{Url: fhir.URI("w"), Value: &dtpb.Extension_ValueX{Choice: &dtpb.Extension_ValueX_Instant{Instant: &dtpb.Instant{ValueUs: 1600000000000000}}}}, {Url: fhir.URI("q"), Value: &dtpb.Extension_ValueX{Choice: &dtpb.Extension_ValueX_Quantity{Quantity: &dtpb.Quantity{Unit: fhir.String("mg")}}}}}},
 	}
+	// references in the hand-built `uri` layout (what a caller who fills the proto directly writes) next to the
+	// layout the JSON parser produces: comparing them must not normalise either in place
+	built[len(fixed)+1] = &opb.Observation{Id: fhir.ID("o2"),
+		Subject:   &dtpb.Reference{Reference: &dtpb.Reference_Uri{Uri: fhir.String("Patient/123")}},
+		Performer: []*dtpb.Reference{{Reference: &dtpb.Reference_PatientId{PatientId: &dtpb.ReferenceId{Value: "123"}}}, {Reference: &dtpb.Reference_Uri{Uri: fhir.String("Practitioner/x/_history/2")}}, {Reference: &dtpb.Reference_Uri{Uri: fhir.String("#frag")}}, {Reference: &dtpb.Reference_Fragment{Fragment: fhir.String("frag")}}},
+		Focus:     []*dtpb.Reference{{Reference: &dtpb.Reference_Uri{Uri: fhir.String("Patient/124")}}, {Reference: &dtpb.Reference_PractitionerId{PractitionerId: &dtpb.ReferenceId{Value: "x", History: &dtpb.Id{Value: "2"}}}}},
+	}
+	refPrograms := []string{"Observation.subject = Observation.performer.first()", "Observation.subject != Observation.performer.first()", "Observation.performer[1] = Observation.focus[1]", "Observation.focus[1] != Observation.performer[1]",
+		"Observation.performer[2] = Observation.performer[3]", "Observation.subject = Observation.focus.first()", "Observation.focus.first() != Observation.subject", "Observation.performer.where($this = %context.subject)", "Observation.performer.select($this != %context.subject)",
+		"Observation.performer = Observation.performer", "Observation.focus = Observation.performer", "(Observation.subject | Observation.performer).count()", "Observation.performer.distinct()", "Observation.performer.intersect(Observation.focus)",
+		"Observation.subject = %r.subject", "%r.subject != Observation.subject", "Observation.subject.reference = Observation.performer.first().reference", "Observation.performer.exclude(Observation.subject)"}
 	builtPrograms := []string{"Encounter.period.start < Encounter.period.end", "Encounter.period.start = Encounter.period.end", "Encounter.period.start.toString()", "Encounter.period.descendants().distinct()", "Encounter.descendants().toString()", "Encounter.extension.value",
 		"Encounter.extension.value.toString()", "Encounter.extension.value = Encounter.extension.value", "Encounter.extension.value.distinct()", "Encounter.period.start + 1 day", "Encounter.period.start.toDate()", "Encounter.period.start is DateTime", "Encounter.extension.value.select($this < $this)",
 		"Encounter.extension.value.where($this = $this)", "Encounter.descendants().isDistinct()", "Encounter.extension.value.toDateTime()", "Encounter.extension.value.toTime()", "Encounter.extension.value.convertsToDate()"}
@@ -218,7 +230,8 @@ func runC03(c *Ctx) {
 		var res fhir.Resource
 		var js []byte
 		if b, ok := built[ri]; ok {
-			rn, res, js = "Encounter", b, []byte(`{"resourceType":"Encounter","id":"e"}`)
+			rn = string(b.ProtoReflect().Descriptor().Name())
+			res, js = b, []byte(`{"resourceType":"`+rn+`","id":"e"}`)
 		} else if ri < len(fixed) {
 			rn = fixed[ri].rn
 			res = mustResource(fixed[ri].js)
@@ -252,7 +265,11 @@ func runC03(c *Ctx) {
 			targeted = append(targeted, c03KindPrograms()...)
 		}
 		if _, ok := built[ri]; ok {
-			targeted = append(builtPrograms, targeted...)
+			if rn == "Encounter" {
+				targeted = append(builtPrograms, targeted...)
+			} else {
+				targeted = append(refPrograms, targeted...)
+			}
 		}
 		for pi := 0; pi < nProg+len(targeted); pi++ {
 			var src string
